@@ -32,6 +32,29 @@ def prose(r, lo=1, hi=6, punct=True, rich=True):
     return s
 
 
+def sized_prose(r, target):
+    """prose of about `target` characters"""
+    ws = []
+    while len(" ".join(ws)) < target:
+        ws.append(r.choice(WORDS))
+    s = " ".join(ws)
+    if len(s) > target + 6 and len(ws) > 1:
+        s = " ".join(ws[:-1])
+    return s + r.choice(["", ".", ","])
+
+
+def lengthen(r, irj, lo=70, hi=240):
+    """make some prose (and sometimes the summary) long enough to be wrapped at the default width"""
+    for _, p in irj["params"]:
+        if "doc" in p and " Defaults to " not in p["doc"] and r.random() < 0.5:
+            p["doc"] = sized_prose(r, r.randint(lo, hi))
+    if irj.get("returns") and "doc" in irj["returns"] and r.random() < 0.4:
+        irj["returns"]["doc"] = sized_prose(r, r.randint(lo, hi))
+    if r.random() < 0.4:
+        irj["doc"] = sized_prose(r, r.randint(lo, hi)) + ("\n" + sized_prose(r, r.randint(20, 60)) if r.random() < 0.5 else "")
+    return irj
+
+
 def gen_type(r, depth=0, rich=True):
     k = r.random()
     if depth > 1 or k < 0.5 or not rich:
